@@ -3,6 +3,10 @@ mod abs;
 mod ops;
 mod gen;
 mod cbgen;
+#[cfg(feature = "io")]
+mod frames;
+#[cfg(feature = "io")]
+mod aread;
 
 use serde_json::{json, Value};
 use std::io::{BufRead, BufReader, BufWriter, Write};
